@@ -93,6 +93,59 @@ pub fn run_session(req: &Value) -> Value {
     json!({"obs":obs})
 }
 
+
+/// The same lines through the real executable's prompt (no hooks): what it wrote (both streams, in order) between the
+/// prompt that read line k and the next prompt.  None when a line would not reach the prompt as one line.
+pub fn prompt_chunks(bin: &str, lines: &[String]) -> Option<Vec<Option<Vec<u32>>>> {
+    if bin.is_empty() || lines.iter().any(|l| l.contains('\n') || l.contains('\r') || l.contains(">>> ")) {
+        return None;
+    }
+    use std::process::{Command, Stdio};
+    let mut child = Command::new("sh")
+        .arg("-c")
+        .arg("exec timeout 30 \"$0\" 2>&1")
+        .arg(bin)
+        .stdin(Stdio::piped())
+        .stdout(Stdio::piped())
+        .spawn()
+        .ok()?;
+    let mut input = lines.join("\n");
+    input.push('\n');
+    {
+        let mut stdin = child.stdin.take()?;
+        let _ = stdin.write_all(input.as_bytes());
+    }
+    let out = child.wait_with_output().ok()?;
+    let text = String::from_utf8_lossy(&out.stdout).to_string();
+    let mut parts: Vec<&str> = text.split(">>> ").collect();
+    // before the first prompt nothing is written
+    let first = if parts.is_empty() { "" } else { parts.remove(0) };
+    let mut chunks: Vec<Option<Vec<u32>>> = Vec::new();
+    for k in 0..lines.len() {
+        // chunk k is complete only if the prompt came back after it
+        if first.is_empty() && k + 1 < parts.len() {
+            chunks.push(Some(parts[k].chars().map(|c| c as u32).collect()));
+        } else {
+            chunks.push(None);
+        }
+    }
+    Some(chunks)
+}
+
+fn attach_shown(ob: &mut Value, chunks: &Option<Vec<Option<Vec<u32>>>>, k: usize, from: usize) {
+    if let Some(ch) = chunks {
+        match ch.get(k) {
+            Some(Some(c)) => {
+                ob["shown"] = json!(c);
+                ob["shown_from"] = json!(from);
+            }
+            _ => {
+                ob["shown_missing"] = json!(true);
+            }
+        }
+    }
+}
+
 #[derive(Clone)]
 struct Line {
     text: String,
@@ -225,6 +278,7 @@ pub fn gen_session_records(args: &Args) {
     let mut src = std::fs::File::create(format!("{out}.src")).expect("create src");
     let mut ses = std::fs::File::create(format!("{out}.sessions")).expect("create sessions");
     let mut w = Worker::spawn(Duration::from_secs(30));
+    let bin = args.get("bin", "");
     let mut id = first_id;
     for i in 0..n {
         let s = seed.wrapping_mul(11_000_027).wrapping_add(i);
@@ -234,6 +288,7 @@ pub fn gen_session_records(args: &Args) {
         let req = json!({"op":"session","lines":lines.iter().map(|l| json!({"text":l.text})).collect::<Vec<_>>()});
         let r = w.request(&req);
         let obs = r["obs"].as_array().cloned().unwrap_or_default();
+        let chunks = prompt_chunks(&bin, &lines.iter().map(|l| l.text.clone()).collect::<Vec<_>>());
         writeln!(ses, "{}", json!({"session":i,"lines":lines.iter().map(|l| json!({"text":l.text,"fail":l.fail})).collect::<Vec<_>>(),"obs":obs})).unwrap();
         // the law: line i behaves like the last line of the program made of everything committed before it
         let mut committed: Vec<Stmt> = Vec::new();
@@ -253,6 +308,7 @@ pub fn gen_session_records(args: &Args) {
                     total_out.extend(line_out.clone());
                     let mut ob = o.clone();
                     ob["out"] = Value::Array(total_out);
+                    attach_shown(&mut ob, &chunks, k, out_so_far.len());
                     writeln!(sem, "{}", json!({"id":id,"fam":format!("session-line-{}", l.fail),"nodes":nodes,"root":root,
                         "obs":ob,"parse_same":true,"session":i,"line":k})).unwrap();
                     writeln!(src, "{}", json!({"id":id,"text":format!("// session {i}, line {k} as the last line of the program so far\n{}", to_text(&prog, false))})).unwrap();
@@ -416,6 +472,7 @@ pub fn gen_session_alphabet(args: &Args) {
     let mut src = std::fs::File::create(format!("{out}.src")).expect("create src");
     let mut w = Worker::spawn(Duration::from_secs(30));
     let heap_set = args.get("set", "") == "heap";
+    let bin = args.get("bin", "");
     let al = if heap_set { heap_alphabet() } else { alphabet() };
     let n = al.len();
     let mut sessions: Vec<Vec<usize>> = Vec::new();
@@ -436,6 +493,7 @@ pub fn gen_session_alphabet(args: &Args) {
         let texts: Vec<String> = s.iter().map(|k| if al[*k].2.is_empty() { to_text(&al[*k].0, true) } else { al[*k].2.to_string() }).collect();
         let r = w.request(&json!({"op":"session","lines":texts.iter().map(|t| json!({"text":t})).collect::<Vec<_>>()}));
         let obs = r["obs"].as_array().cloned().unwrap_or_default();
+        let chunks = prompt_chunks(&bin, &texts);
         let mut committed: Vec<Stmt> = Vec::new();
         let mut out_so_far: Vec<Value> = Vec::new();
         for (k, li) in s.iter().enumerate() {
@@ -459,8 +517,10 @@ pub fn gen_session_alphabet(args: &Args) {
             let (nodes, root) = crate::ast::flatten(&prog);
             let mut ob = o.clone();
             let mut total = if rejected { vec![] } else { out_so_far.clone() };
+            let from = total.len();
             total.extend(line_out.clone());
             ob["out"] = Value::Array(total);
+            attach_shown(&mut ob, &chunks, k, from);
             writeln!(sem, "{}", json!({"id":id,"fam":"session-alphabet","nodes":nodes,"root":root,"obs":ob,"parse_same":true})).unwrap();
             writeln!(src, "{}", json!({"id":id,"text":format!("// session {:?}, line {k} as the last line of the program so far\n{}", s, to_text(&prog, false))})).unwrap();
             id += 1;
